@@ -139,7 +139,7 @@ pub fn eval(c: &Case, obs: &mut Obs) -> Result<(), String> {
             };
         }
         'F' => {
-            if bytes.len() > 1 << 16 {
+            if bytes.len() > 1 << 17 {
                 return Err("malformed case".into());
             }
             class = match mb2_model::fuzzdec::model_find(bytes) {
